@@ -46,55 +46,58 @@ type target struct {
 	recv string // "" or receiver type name
 	name string
 	rets bool // emit return statements
+	// front end (drc.Main, doapprove.Main): every switch is shown completely (all clauses, also
+	// empty ones, `fallthrough`, the returns inside), every flag definition is shown
+	front bool
 }
 
 var targets = []target{
-	{"device/main.go", "", "ApproveOrCompare", true},
-	{"device/main.go", "", "CompareFiles", true},
-	{"device/main.go", "state", "approve", true},
-	{"device/main.go", "state", "compare", true},
-	{"device/main.go", "state", "compareDevice", true},
-	{"device/main.go", "state", "loadDevice", true},
-	{"device/main.go", "state", "applyCommands", true},
-	{"device/main.go", "state", "getCompare", true},
-	{"drc/main.go", "", "Main", false},
-	{"doapprove/main.go", "", "Main", false},
-	{"cisco/device.go", "State", "LoginEnable", true},
-	{"cisco/device.go", "State", "checkBanner", true},
-	{"cisco/device.go", "State", "GetErrUnmanaged", true},
-	{"asa/device.go", "State", "LoadDevice", true},
-	{"asa/device.go", "State", "setTerminal", true},
-	{"asa/device.go", "State", "logVersion", true},
-	{"asa/device.go", "State", "checkDeviceName", true},
-	{"ios/device.go", "State", "LoadDevice", true},
-	{"ios/device.go", "State", "setTerminal", true},
-	{"ios/device.go", "State", "logVersion", true},
-	{"ios/device.go", "State", "checkDeviceName", true},
-	{"linux/device.go", "State", "LoadDevice", true},
-	{"linux/device.go", "State", "loginEnable", true},
-	{"linux/device.go", "State", "logVersion", true},
-	{"linux/device.go", "State", "checkDeviceName", true},
-	{"linux/device.go", "State", "checkBanner", true},
-	{"linux/device.go", "State", "getDeviceRoutes", true},
-	{"linux/device.go", "State", "getDeviceIPTables", true},
-	{"linux/device.go", "State", "GetErrUnmanaged", true},
-	{"linux/device.go", "State", "GetChanges", true},
-	{"panos/device.go", "State", "LoadDevice", true},
-	{"panos/device.go", "State", "getAPIKey", true},
-	{"panos/device.go", "State", "checkHA", true},
-	{"panos/device.go", "State", "GetChanges", true},
-	{"panos/device.go", "State", "checkUnmanaged", true},
-	{"panos/device.go", "State", "GetErrUnmanaged", true},
-	{"panos/device.go", "State", "httpPrefixGetLog", true},
-	{"panos/device.go", "State", "httpGet", true},
-	{"panos/config.go", "PanConfig", "checkDeviceName", true},
-	{"nsx/device.go", "State", "LoadDevice", true},
-	{"nsx/device.go", "State", "getRawJSON", true},
-	{"nsx/device.go", "State", "sendRequest", true},
-	{"nsx/device.go", "State", "GetErrUnmanaged", true},
-	{"nsx/device.go", "State", "GetChanges", true},
-	{"httpdevice/device.go", "", "TryReachableHTTPLogin", true},
-	{"cisco/diff.go", "State", "GetChanges", true},
+	{"device/main.go", "", "ApproveOrCompare", true, false},
+	{"device/main.go", "", "CompareFiles", true, false},
+	{"device/main.go", "state", "approve", true, false},
+	{"device/main.go", "state", "compare", true, false},
+	{"device/main.go", "state", "compareDevice", true, false},
+	{"device/main.go", "state", "loadDevice", true, false},
+	{"device/main.go", "state", "applyCommands", true, false},
+	{"device/main.go", "state", "getCompare", true, false},
+	{"drc/main.go", "", "Main", false, true},
+	{"doapprove/main.go", "", "Main", false, true},
+	{"cisco/device.go", "State", "LoginEnable", true, false},
+	{"cisco/device.go", "State", "checkBanner", true, false},
+	{"cisco/device.go", "State", "GetErrUnmanaged", true, false},
+	{"asa/device.go", "State", "LoadDevice", true, false},
+	{"asa/device.go", "State", "setTerminal", true, false},
+	{"asa/device.go", "State", "logVersion", true, false},
+	{"asa/device.go", "State", "checkDeviceName", true, false},
+	{"ios/device.go", "State", "LoadDevice", true, false},
+	{"ios/device.go", "State", "setTerminal", true, false},
+	{"ios/device.go", "State", "logVersion", true, false},
+	{"ios/device.go", "State", "checkDeviceName", true, false},
+	{"linux/device.go", "State", "LoadDevice", true, false},
+	{"linux/device.go", "State", "loginEnable", true, false},
+	{"linux/device.go", "State", "logVersion", true, false},
+	{"linux/device.go", "State", "checkDeviceName", true, false},
+	{"linux/device.go", "State", "checkBanner", true, false},
+	{"linux/device.go", "State", "getDeviceRoutes", true, false},
+	{"linux/device.go", "State", "getDeviceIPTables", true, false},
+	{"linux/device.go", "State", "GetErrUnmanaged", true, false},
+	{"linux/device.go", "State", "GetChanges", true, false},
+	{"panos/device.go", "State", "LoadDevice", true, false},
+	{"panos/device.go", "State", "getAPIKey", true, false},
+	{"panos/device.go", "State", "checkHA", true, false},
+	{"panos/device.go", "State", "GetChanges", true, false},
+	{"panos/device.go", "State", "checkUnmanaged", true, false},
+	{"panos/device.go", "State", "GetErrUnmanaged", true, false},
+	{"panos/device.go", "State", "httpPrefixGetLog", true, false},
+	{"panos/device.go", "State", "httpGet", true, false},
+	{"panos/config.go", "PanConfig", "checkDeviceName", true, false},
+	{"nsx/device.go", "State", "LoadDevice", true, false},
+	{"nsx/device.go", "State", "getRawJSON", true, false},
+	{"nsx/device.go", "State", "sendRequest", true, false},
+	{"nsx/device.go", "State", "GetErrUnmanaged", true, false},
+	{"nsx/device.go", "State", "GetChanges", true, false},
+	{"httpdevice/device.go", "", "TryReachableHTTPLogin", true, false},
+	{"cisco/diff.go", "State", "GetChanges", true, false},
 }
 
 // Primitives that put something on the wire (or wait for the device); number of leading
@@ -137,7 +140,7 @@ var fullArgs = map[string]bool{
 // Assignments that are kept (text of the left-hand side).
 var watch = map[string]bool{
 	"bannerLines": true, "s.errUnmanaged": true, "devName": true, "isCompare": true, "action": true,
-	"err": false,
+	"logFile": true, "err": false,
 }
 
 var problems []string
@@ -159,6 +162,8 @@ func text(n ast.Node) string {
 type ex struct {
 	items    []item
 	rets     bool
+	front    bool
+	inSwitch int
 	closures map[string]bool
 	fn       string
 }
@@ -336,10 +341,20 @@ func (x *ex) stmt(s ast.Stmt, d int) {
 		for _, r := range v.Rhs {
 			x.expr(r, d)
 		}
+		emitted := false
 		for _, l := range v.Lhs {
 			if watch[text(l)] {
 				x.emit(d, "assign", text(v))
+				emitted = true
 				break
+			}
+		}
+		if x.front && !emitted && len(v.Rhs) == 1 {
+			// flag definitions: x := fs.BoolP(…), fs.StringP(…)
+			if c, ok := v.Rhs[0].(*ast.CallExpr); ok {
+				if q, _ := calleeName(c.Fun); q == "fs" {
+					x.emit(d, "assign", text(v))
+				}
 			}
 		}
 	case *ast.DeclStmt:
@@ -406,10 +421,11 @@ func (x *ex) stmt(s ast.Stmt, d int) {
 		for _, r := range v.Results {
 			x.expr(r, d)
 		}
-		if x.rets && len(v.Results) == 0 {
+		rets := x.rets || (x.front && x.inSwitch > 0)
+		if rets && len(v.Results) == 0 {
 			x.emit(d, "ret", "")
 		}
-		if x.rets && len(v.Results) > 0 {
+		if rets && len(v.Results) > 0 {
 			parts := make([]string, len(v.Results))
 			for i, r := range v.Results {
 				if _, ok := r.(*ast.CallExpr); ok {
@@ -446,8 +462,10 @@ func (x *ex) stmt(s ast.Stmt, d int) {
 				}
 				hdr = strings.Join(parts, ", ")
 			}
+			x.inSwitch++
 			its := x.sub(func() { x.stmts(cc.Body, d+2) })
-			if len(its) > 0 {
+			x.inSwitch--
+			if len(its) > 0 || x.front {
 				cls = append(cls, cl{hdr, its})
 			}
 		}
@@ -465,7 +483,11 @@ func (x *ex) stmt(s ast.Stmt, d int) {
 		}
 	case *ast.BlockStmt:
 		x.stmts(v.List, d)
-	case *ast.IncDecStmt, *ast.BranchStmt, *ast.EmptyStmt:
+	case *ast.BranchStmt:
+		if x.front && x.inSwitch > 0 && v.Tok == token.FALLTHROUGH {
+			x.emit(d, "fallthrough", "")
+		}
+	case *ast.IncDecStmt, *ast.EmptyStmt:
 	case *ast.LabeledStmt:
 		x.stmt(v.Stmt, d)
 	case *ast.TypeSwitchStmt, *ast.GoStmt, *ast.SelectStmt, *ast.SendStmt:
@@ -568,7 +590,7 @@ func main() {
 			problem("function %s not found in %s", key, t.file)
 			continue
 		}
-		x := &ex{rets: t.rets, closures: map[string]bool{}, fn: key}
+		x := &ex{rets: t.rets, front: t.front, closures: map[string]bool{}, fn: key}
 		x.stmts(found.Body.List, 0)
 		outs = append(outs, fnOut{key, x.items})
 	}
